@@ -317,7 +317,7 @@ pub fn archives(seed: u64, thorough: bool) -> Vec<Arch> {
 fn replay(case: &Value, st: &mut Stats) {
     let bytes = crate::util::unhex(case["bytes"].as_str().unwrap_or(""));
     let Ok(seek) = observe(&bytes, Some(b"pw"), 1 << 22) else {
-        eprintln!("seekable reader cannot open the replay archive");
+        crate::diag!("seekable reader cannot open the replay archive");
         return;
     };
     let label = case["archive"].as_str().unwrap_or("replay").to_string();
